@@ -27,11 +27,16 @@ META = {
                   "Floyd/Dijkstra zones are generated as trees of two-way routes so that the minimal chain is unique (minimality itself is C25's subject), and Dijkstra "
                   "zones get one link per declared route because they list multi-link hops reversed (C25 finding). Pairs for which the documentation does not pin "
                   "the answer down are counted as unjudged: loopback of a Vivaldi member, a bypass route that matches a sub-route of the recursion. "
-                  "Bypass routes between non-sibling zones are not generated.",
+                  "Bypass routes between non-sibling zones are not generated. Pairs whose documented derivation runs into one of the open findings "
+                  "(gateway declared in another sub-zone than the endpoint, Dijkstra transit between two gateways) are asked last, through a query that survives "
+                  "SIGSEGV/SIGABRT, at most 60 per platform (4 under ASan), and any deviation on them is reported under that finding's key: other defects "
+                  "that only show on such pairs are masked until those findings are fixed. A deviation on any other pair is first compared with the exact link "
+                  "list each open order/loopback finding would produce; only an exact match (or, for nested bypasses, the same links up to order plus the "
+                  "endpoints' own loopback routes) gets that finding's key.",
     "rule": "case = one generated platform (API or XML leg); non-trivial = distinct platforms fully answered in which at least one judged pair composes >= 3 zone-local routes",
     "assumptions": ["the documented recursive algorithm (Platform_routing.rst, 'Calculating network paths') is the specification of route composition",
                     "default loopback link '__loopback__' (latency 0) for a host of a routed leaf zone without declared loopback route"],
-    "ready": False,
+    "ready": True,
 }
 
 ROUTED_INT = ["full", "full", "floyd", "floyd", "star", "star", "dijkstra", "dijkstracache", "vivaldi"]
